@@ -55,6 +55,9 @@ type xUnit struct {
 	// ErrVals: the error results are values, not just nil / non-nil: the name of the package's struct type T whose
 	// pointer is returned as an error. error is (go_error T): nil = GoErrNil, errors.New(s) = GoErrNew s, &T{..} = GoErrVal {|..|}
 	ErrVals string
+	// StrMaps: a map with string keys is the list of its insertions in order (m[k] = v appends (k, v); a later binding of
+	// a key overrides an earlier one for any reader of the list); lookups, len and iteration stay outside the subset
+	StrMaps bool
 	// Deep: the statement slice From..To is looked for in nested statement lists as well (it must be unique)
 	Deep bool
 	// Methods: pure methods without arguments of values of the subset (e.String()) that the code calls: each becomes a
@@ -123,6 +126,7 @@ type xl struct {
 	tmp      int
 	// state mode
 	xpkg       *xPkg
+	ld         *xLoader
 	units      []xUnit
 	ptrParam   map[types.Object]bool // pointer parameters: in/out values
 	ptrOrder   []*types.Var
@@ -141,7 +145,7 @@ type xl struct {
 
 // identifiers the generated text uses itself; a Go variable of such a name gets a trailing underscore
 var xReserved = strings.Fields(`ctl Next Return Panic bindc go_call wrapU wrapS go_len go_nth go_in_range go_slice
- go_slice_ok go_bytes_eqb go_be_u16 go_be_u32 go_be_u64 go_emit_u8 go_emit_u16 go_emit_u32 go_emit_u64 go_emit_bytes go_range go_count go_map_get go_map_set go_make go_iter rd fuel inl inr go_atomic_cas32 go_atomic_add32 go_search go_search_ok Some None go_f32_to_f64 go_bytes_ltb go_sort_by go_count_down a__ b__ go_loop go_copy go_deliver
+ go_slice_ok go_bytes_eqb go_be_u16 go_be_u32 go_be_u64 go_emit_u8 go_emit_u16 go_emit_u32 go_emit_u64 go_emit_bytes go_range go_count go_map_get go_map_set go_make go_iter rd fuel inl inr go_atomic_cas32 go_atomic_add32 go_search go_search_ok Some None go_f32_to_f64 go_bytes_ltb go_sort_by go_count_down a__ b__ go_loop go_copy go_deliver go_smap_put
  andb orb negb implb true false tt nil cons list unit bool Z N nat fst snd pair Bool eqb
  fun let in if then else match with end as return forall exists fix cofix Type Prop Set struct where at using for IF
  Definition Fixpoint Record Lemma Theorem out st`)
@@ -269,6 +273,9 @@ func (x *xl) coqType(n ast.Node, t types.Type) string {
 	if m, ok := t.Underlying().(*types.Map); ok { // integer-keyed maps: association lists (iteration is outside the subset)
 		if _, _, ok := xIntType(m.Key()); ok {
 			return "(list (Z * " + x.coqType(n, m.Elem()) + "))"
+		}
+		if x.unit != nil && x.unit.StrMaps && xIsBytes(m.Key()) {
+			return "(list ((list N) * " + x.coqType(n, m.Elem()) + "))"
 		}
 	}
 	if nm, ok := t.(*types.Named); ok {
@@ -433,6 +440,9 @@ func (x *xl) lvalue(e ast.Expr) *types.Var {
 	}
 	if ie, ok := e.(*ast.IndexExpr); ok { // m[k] = v sets the map variable
 		if _, isMap := x.typeOf(ie.X).Underlying().(*types.Map); isMap {
+			if f := x.field(ie.X); f != nil { // a map field of the receiver (receiver-fields mode)
+				return f
+			}
 			if id, isId := ie.X.(*ast.Ident); isId {
 				if v, isVar := x.info.ObjectOf(id).(*types.Var); isVar {
 					return v
@@ -660,6 +670,9 @@ func (x *xl) expr(e ast.Expr, g *xGuards) string {
 	case *ast.IndexExpr:
 		t := x.typeOf(e.X)
 		if m, ok := t.Underlying().(*types.Map); ok {
+			if xIsBytes(m.Key()) {
+				x.fail(e, "lookup in a map with string keys is outside the subset")
+			}
 			return "(go_map_get " + x.mapVar(e) + " " + x.expr(e.Index, g) + " " + x.zero(e, m.Elem()) + ")"
 		}
 		l, i := x.expr(e.X, g), x.expr(e.Index, g)
@@ -1647,7 +1660,11 @@ func (x *xl) assign(s *ast.AssignStmt, rest func() string, d int) string {
 			v = "{| " + strings.Join(fs, "; ") + " |}"
 		}
 		if ie, ok := l.(*ast.IndexExpr); ok && lv != nil { // m[k] = v
-			v = "(go_map_set " + x.mapVar(ie) + " " + x.expr(ie.Index, &g) + " " + v + ")"
+			set := "go_map_set"
+			if m, isMap := x.typeOf(ie.X).Underlying().(*types.Map); isMap && xIsBytes(m.Key()) {
+				set = "go_smap_put"
+			}
+			v = "(" + set + " " + x.mapVar(ie) + " " + x.expr(ie.Index, &g) + " " + v + ")"
 		}
 		if lv == nil {
 			ns = append(ns, "_")
@@ -1775,6 +1792,25 @@ func (x *xl) forStmt(s *ast.ForStmt, rest func() string, d int) string {
 		x.fail(s, "only loops of the form  for i := a; i < n; i++ { ... }  (and range loops over slices) are in the subset")
 	}
 	init, ok := s.Init.(*ast.AssignStmt)
+	if ok && init.Tok == token.DEFINE && len(init.Lhs) == 2 && len(init.Rhs) == 2 { // for i, e := a, n; i < e; i++: e is set once, before the loop
+		if ci, isB := s.Cond.(*ast.BinaryExpr); isB {
+			if yi, isId := ci.Y.(*ast.Ident); isId && x.info.ObjectOf(yi) == x.info.ObjectOf(init.Lhs[1].(*ast.Ident)) && x.src(init.Lhs[0]) != x.src(init.Lhs[1]) {
+				uses := false // the bound's value must not mention the counter (both are evaluated before either is set)
+				ast.Inspect(init.Rhs[1], func(n ast.Node) bool {
+					if id, isId := n.(*ast.Ident); isId && id.Name == x.src(init.Lhs[0]) {
+						uses = true
+					}
+					return true
+				})
+				if !uses {
+					first := &ast.AssignStmt{Lhs: init.Lhs[1:], TokPos: init.TokPos, Tok: token.DEFINE, Rhs: init.Rhs[1:]}
+					c := *s
+					c.Init = &ast.AssignStmt{Lhs: init.Lhs[:1], TokPos: init.TokPos, Tok: token.DEFINE, Rhs: init.Rhs[:1]}
+					return x.stmt(first, func() string { return x.forStmt(&c, rest, d) }, d)
+				}
+			}
+		}
+	}
 	if !ok || init.Tok != token.DEFINE || len(init.Lhs) != 1 || len(init.Rhs) != 1 {
 		bad()
 	}
